@@ -31,6 +31,16 @@ func (c *Executer) VerifStep() (bool, error) {
 	}
 }
 
+// VerifStepBlock is VerifStep that also tells which block (from which peer; "" = generated locally) was processed.
+func (c *Executer) VerifStepBlock() (bool, *blockchain.Block, p2p.PeerID, error) {
+	select {
+	case ctx := <-c.processCh:
+		return true, ctx.block, ctx.peerID, c.process(ctx)
+	default:
+		return false, nil, "", nil
+	}
+}
+
 // VerifQueued returns the header of the next queued block without removing it (nil if none) - not possible on a
 // channel; the simulator tracks what it queued itself. Kept out on purpose.
 
